@@ -49,6 +49,7 @@ STANDINS = {
     "C04": [{"mirror": "valid_output_bounded"}],
     "C05": [{"mirror": "corpus", "trait": "none"}],
     "C08": [{"mirror": "corpus", "trait": "cleanup"}],
+    "C09": [{"mirror": "corpus", "trait": "unused"}, {"mirror": "interface_positions"}, {"mirror": "remove_unused"}],
     "C11": [{"mirror": "corpus", "trait": "symmetry"}],
     "C12": [{"mirror": "corpus", "trait": "minmax_chains"}],
     "C13": [{"mirror": "corpus", "trait": "sum_chains"}],
